@@ -805,7 +805,14 @@ func (ca ConstantAttribute) String() string {
 	if ca.SingleQuote {
 		quote = `'`
 	}
-	return ca.Name + `=` + quote + ca.Value + quote
+	// The parser unescapes the value, so character references have to be restored.
+	value := strings.ReplaceAll(ca.Value, "&", "&amp;")
+	if ca.SingleQuote {
+		value = strings.ReplaceAll(value, "'", "&#39;")
+	} else {
+		value = strings.ReplaceAll(value, `"`, "&quot;")
+	}
+	return ca.Name + `=` + quote + value + quote
 }
 
 func (ca ConstantAttribute) Write(w io.Writer, indent int) error {
